@@ -8,9 +8,10 @@ sys.path.insert(0, os.path.dirname(os.path.dirname(os.path.abspath(__file__))))
 from pyvc import props
 VERIF = os.path.dirname(os.path.dirname(os.path.abspath(__file__)))
 skip = set(os.environ.get("SKIP", "").split(","))
+only = set(x for x in os.environ.get("ONLY", "").split(",") if x)
 for patch in sys.argv[1:]:
     files = set(re.findall(r"^\+\+\+ b/(\S+)", open(patch).read(), re.M))
-    plans = sorted(p for p, plan in props.PLANS.items() if p not in skip and any(t.split("::")[0] in files for t in plan["targets"]))
+    plans = sorted(p for p, plan in props.PLANS.items() if p not in skip and (not only or p in only) and any(t.split("::")[0] in files for t in plan["targets"]))
     d = tempfile.mkdtemp(prefix="pyvc-fa.")
     try:
         subprocess.run("git -C /repo archive HEAD | tar -x -C %s" % d, shell=True, check=True)
